@@ -17,6 +17,7 @@ import Robsd.Model.Runner
 import Robsd.Model.Conf
 import Robsd.Model.Map
 import Robsd.Model.Vector
+import Robsd.Model.Wait
 /-
   robsd_model: the executable models behind a line protocol.
   One request per line: `<component> <op> <args…>`; byte strings are hex
@@ -391,6 +392,11 @@ def bufRun (init : Nat) (ops : List String) : String :=
 
 def handle (ws : List String) : String :=
   match ws with
+  | "wait" :: all :: args :: batches :: [] =>
+    let bs : List (List Nat) := if batches == "-" then [] else (batches.splitOn "|").map fun b => (b.splitOn ";").filterMap (·.toNat?)
+    match Wait.run (all == "1") ((listOf args).map hexArg) bs with
+    | none => "blocked"
+    | some (rc, rest) => s!"{rc} " ++ (if rest.isEmpty then "-" else ",".intercalate (rest.map toString))
   | "map" :: ops :: [] => mapRun (listOf ops)
   | "vec" :: hdr :: stride :: init :: ops :: [] =>
     vecRun ⟨stride.toNat?.getD 8, hdr.toNat?.getD 56⟩ (init.toNat?.getD 0) (listOf ops)
